@@ -230,6 +230,7 @@ def path_consumption(p, f, cname):
             neg.add("+" + s)
 
     # second pass: consumption
+    drops = []
     env2 = {}
     for i, e in enumerate(evs):
         node = e.node
@@ -238,8 +239,16 @@ def path_consumption(p, f, cname):
                 env2[node.targets[0].id] = to_lin(node.value, env2, cname)
             except NotLinear:
                 env2.pop(node.targets[0].id, None)
-        if e.kind == "def":
+        if e.kind in ("def", "test", "assert"):
             continue
+        # rebinding of the coefficient list to a proper slice of itself: indices are dropped without being consumed
+        if e.kind == "stmt" and isinstance(node, ast.Assign) and len(node.targets) == 1 and dotted(node.targets[0]) == cname:
+            v = node.value
+            if isinstance(v, ast.Subscript) and dotted(v.value) == cname and isinstance(v.slice, ast.Slice):
+                drops.append((i, node))
+                for m in ast.walk(node):
+                    seen_nodes.add(id(m))
+                continue
         scan = [node]
         if e.kind == "iter":
             scan = [node]
@@ -301,6 +310,25 @@ def path_consumption(p, f, cname):
                         if loop is not None and any(isinstance(x, ast.Name) and isinstance(loop.target, ast.Name) and x.id == loop.target.id for x in ast.walk(idx)):
                             raise AnalysisError(f"{f.name}: index `{norm_src(idx)}` depends on the loop variable non-trivially")
                         intervals.append((k, k + 1, f"{cname}[{norm_src(idx)}]"))
+    # judge the drops: dropping c[-1] (resp. c[0]) is value preserving only when that coefficient is known to be zero AND it is the
+    # highest-order coefficient, i.e. in the forward convention (reverse is False on this path) for c[-1]
+    has_reverse = any(a.arg == "reverse" for a in f.args.args)
+    for i, node in drops:
+        sl = node.value.slice
+        which = None
+        if sl.lower is None and sl.upper is not None and norm_src(sl.upper) == "-1" and sl.step is None:
+            which = "-1"
+        elif sl.upper is None and sl.lower is not None and norm_src(sl.lower) == "1" and sl.step is None:
+            which = "0"
+        zero_known = which is not None and any(
+            ev.kind == "test" and ev.pol and f"{cname}[{which}] == 0" in norm_src(ev.node) for ev in evs[:i])
+        rev_false = (not has_reverse) or any(ev.kind == "test" and not ev.pol and norm_src(ev.node) == "reverse" for ev in evs)
+        rev_true = has_reverse and any(ev.kind == "test" and ev.pol and norm_src(ev.node) == "reverse" for ev in evs)
+        ok = zero_known and ((which == "-1" and rev_false and not rev_true) or (which == "0" and rev_true))
+        if not ok:
+            why = "its value is not known to be zero" if not zero_known else (
+                "the list is still in the caller's coefficient order: with reverse=True the last entry is the constant term, and removing it shifts every other coefficient down one power")
+            intervals.append((Lin({"dropped": 1}), Lin({"dropped": 1}) + 1, f"DROPPED by `{norm_src(node)}` ({why})"))
     return intervals, eqs
 
 
